@@ -107,7 +107,8 @@ def coord_to_index(coord, coords, include_stop=False):
 
 
 def gen_coord_list(start, step, count):
-    return np.arange(start, start + step*count, step)
+    # (np.arange with a float step may produce count + 1 values)
+    return start + step * np.arange(count)
 
 
 def bytes_to_double(bytes):
